@@ -112,7 +112,7 @@ func validateMIC(ctx *context) error {
 }
 
 func setJoinNonce(ctx *context) error {
-	if ctx.deviceKeys.JoinNonce > (1<<24)-1 {
+	if ctx.deviceKeys.JoinNonce < 0 || ctx.deviceKeys.JoinNonce > (1<<24)-1 {
 		return errors.New("join-nonce overflow")
 	}
 	ctx.joinNonce = lorawan.JoinNonce(ctx.deviceKeys.JoinNonce)
